@@ -170,7 +170,7 @@ fn check_item(it: &Item) -> Report {
                             let (ra_, va_) = native_outcome(&pa, &cfg.call, &qs, 0.0);
                             ra = ra_.clone();
                             va = va_.clone();
-                            for poison in [None, Some(f64::NAN), Some(f64::INFINITY), Some(1e300)] {
+                            for poison in [None, Some(f64::NAN), Some(f64::INFINITY), Some(1e300), Some(f64::MAX)] {
                                 let mut pbb = pb.clone();
                                 if let Some(v) = poison {
                                     let keep = lane_positions(cfg, it.lane);
@@ -228,8 +228,39 @@ fn check_item(it: &Item) -> Report {
             Ok((ra, rb, _)) => {
                 let k = |r: &Result<Vec<Sym>, String>| r.as_ref().map(|_| "Ok".to_string()).unwrap_or_else(|e| e.clone());
                 // "both builds Ok" premise: data-dependent build failures (periodic ends, NaN) may differ between copies
-                if k(ra) != k(rb) && !k(ra).starts_with("BuilderError") && !k(rb).starts_with("BuilderError") {
-                    chk.finding(&format!("C08:outcome-differs:{}", cfg.kind.name()), &format!("{}: A {} vs B {}", it.name(), k(ra), k(rb)), Json::obj().with("config", it.name()), None);
+                // the Periodic end-row check is all-or-nothing by design: there a data-dependent build failure may differ
+                // between the copies. For every other strategy a build outcome that depends on another lane's values is
+                // lane cross-talk.
+                let periodic = matches!(cfg.kind, Kind::Spline(Bc::Periodic));
+                let builder = k(ra).starts_with("BuilderError") || k(rb).starts_with("BuilderError");
+                if k(ra) != k(rb) && !(builder && periodic) {
+                    // native replay: copy B with the other lanes at huge finite values, NaN, inf in turn
+                    let (ans, vals) = chk.model(&pcs, &all_vars);
+                    let m = c05::model_f64(&vals);
+                    let mut reproduced = None;
+                    if matches!(ans, crate::engine::smt::Answer::Sat) {
+                        let (pa, qs) = c05::native_problem(cfg, &m, "");
+                        let keep = lane_positions(cfg, it.lane);
+                        let base_outcome = {
+                            let mut p0 = pa.clone();
+                            for (k, d) in p0.data.iter_mut().enumerate() {
+                                *d = 0.5 + (k % 7) as f64; // ordinary finite values everywhere
+                            }
+                            native_outcome(&p0, &cfg.call, &qs, 0.0).0
+                        };
+                        reproduced = Some(false);
+                        for v in [f64::MAX, -f64::MAX, f64::NAN, f64::INFINITY, 1e300] {
+                            let mut p1 = pa.clone();
+                            for (k, d) in p1.data.iter_mut().enumerate() {
+                                *d = if keep.contains(&k) { 0.5 + (k % 7) as f64 } else { v };
+                            }
+                            if native_outcome(&p1, &cfg.call, &qs, 0.0).0 != base_outcome {
+                                reproduced = Some(true);
+                                break;
+                            }
+                        }
+                    }
+                    chk.finding(&format!("C08:outcome-differs:{}", cfg.kind.name()), &format!("{}: A {} vs B {} although lane {} is shared", it.name(), k(ra), k(rb), it.lane), Json::obj().with("config", it.name()).with("model", c05::model_json(&m)), reproduced);
                 }
             }
             Err(m) => {
@@ -257,7 +288,7 @@ fn items(args: &Args) -> Vec<Item> {
     if thorough {
         shapes.extend([vec![1], vec![1, 3], vec![2, 0], vec![2, 1, 2], vec![1, 2, 1, 2], vec![2, 1, 1, 1, 2]]);
     } else {
-        shapes.extend([vec![1, 3], vec![2, 0]]);
+        shapes.extend([vec![1, 3], vec![2, 0], vec![2, 1, 2], vec![1, 2, 1]]);
     }
     let pairs: Vec<(End, End)> = End::ALL.iter().flat_map(|l| End::ALL.iter().map(move |r| (*l, *r))).collect();
     let mut v = vec![];
@@ -280,7 +311,9 @@ fn items(args: &Args) -> Vec<Item> {
             }
             // Individual: a different condition per lane; B rotates the conditions of the other lanes
             if lanes >= 1 {
-                let rows_a: Vec<Row> = (0..lanes).map(|j| { let (l, r) = pairs[(si * 7 + j * 6 + 1) % 25]; if j % 4 == 3 { Row::Plain(End::Nat) } else { Row::Mixed(l, r) } }).collect();
+                // for three trailing axes: most lanes share one condition, a single lane differs
+                let mostly_equal = trailing.len() == 3 && lanes >= 2 && (trailing == &vec![1, 2, 1] || trailing == &vec![2, 2, 2]);
+                let rows_a: Vec<Row> = (0..lanes).map(|j| { let (l, r) = pairs[(si * 7 + j * 6 + 1) % 25]; if mostly_equal { if j == lanes / 4 + 1 { Row::Plain(End::Cla) } else { Row::Plain(End::Nat) } } else if j % 4 == 3 { Row::Plain(End::Nat) } else { Row::Mixed(l, r) } }).collect();
                 let mut rows_b: Vec<Row> = (0..lanes).map(|j| { let (l, r) = pairs[(si * 7 + j * 6 + 9) % 25]; Row::Mixed(r, l) }).collect();
                 rows_b[*lane] = rows_a[*lane];
                 v.push(Item { a: mk(Kind::Spline(Bc::Individual(rows_a)), 4, 0, call.clone()), b_kind: Kind::Spline(Bc::Individual(rows_b)), lane: *lane });
@@ -298,7 +331,7 @@ pub fn run(args: &Args) -> Report {
     for f in crate::c0203::FUNCTIONS.iter().chain(crate::c01::FUNCTIONS).chain(crate::c04::FUNCTIONS) {
         rep.functions.insert(f.to_string());
     }
-    rep.bounds.push(format!("trailing shapes (2), (3), (2,2), (1,3), (2,0){}; Linear n=3, CubicSpline n=3..4 with NotAKnot/Natural/Clamped/Periodic and Individual arrays holding a different Mixed pair per lane (B uses other kinds and independent values for the other lanes), Bilinear 2x3; entry points interp, interp_array (Ix1 x2, Ix2 1x1), interp_array_into (IxDyn); axis, data, boundary values and non-NaN queries all IEEE doubles", if args.thorough() { ", (1), (2,1,2), (1,2,1,2), (2,1,1,1,2) (data up to Ix6) and IxDyn data" } else { "" }));
+    rep.bounds.push(format!("trailing shapes (2), (3), (2,2), (1,3), (2,0), (2,1,2), (1,2,1){}; Linear n=3, CubicSpline n=3..4 with NotAKnot/Natural/Clamped/Periodic and Individual arrays holding a different Mixed pair per lane (B uses other kinds and independent values for the other lanes), Bilinear 2x3; entry points interp, interp_array (Ix1 x2, Ix2 1x1), interp_array_into (IxDyn); axis, data, boundary values and non-NaN queries all IEEE doubles", if args.thorough() { ", (1), (2,1,2), (1,2,1,2), (2,1,1,1,2) (data up to Ix6) and IxDyn data" } else { "" }));
     rep.outside.push("the lane-alone comparison is required only up to rounding: a native difference below 1e-9 relative is reported as information, not as a violation".into());
     rep.assumptions.insert("mode O: comparisons bit-precise IEEE, arithmetic uninterpreted (congruence)".into());
     rep.assumptions.insert("C11 (engine K) for index-guess casts".into());
